@@ -461,6 +461,17 @@ func c17CorsTable(c *core.Ctx) {
 				varyOK = false
 			}
 		}
+		// and on every other path whatsoever: a path from the entry to a return passes a Vary append or the '*' answer
+		// (a reflecting policy answers differently to a request without Origin as well — R12-C17)
+		blockers := append([]core.Loc{}, vlocs...)
+		for _, a := range acao {
+			if g.GuardedBy(a.loc, isStr) && g.GuardedBy(a.loc, star) {
+				blockers = append(blockers, a.loc)
+			}
+		}
+		if g.ReachesExitAvoiding(g.Entry(), blockers) {
+			varyOK = false
+		}
 		c.Check(R, "types.(*cors).configureOrigin/Vary-table", u.Pos(), varyOK, "Vary: Origin whenever the value depends on the request or configuration string, never for *")
 	}
 	if ia := c.Fn(R, "types.(*cors).isOriginAllowed"); ia != nil {
